@@ -49,8 +49,10 @@ Record ecfg := mke {                            (* in-place modifiers and writer
 Record dcfg := mkd {                            (* derivations: a new object from a live one *)
   dv_name : string;
   dv_pre : list string;
-  dv_shares : bool;                            (* child uses the parent's variable table object *)
-  dv_parent_writes : list fpat }.              (* what it stores into the parent's table *)
+  dv_shares : bool;                            (* child uses the parent's elemental_data object
+                                                  (the table that holds the result slots) *)
+  dv_parent_writes : list fpat;                (* what it stores into the parent's table *)
+  dv_shared_tables : list string }.            (* every table object the child shares with the parent *)
 
 Record config := mkcfg { queries : list qcfg; effects : list ecfg; derivs : list dcfg }.
 
@@ -130,6 +132,8 @@ Inductive failure :=
 | FShare (d : string)             (* derivation shares the slot table with its parent *)
 | FWriteRead (w q : string)       (* by-product of w (query / derivation) is read by q *)
 | FProtected (w : string)         (* query / writer / derivation may overwrite core data or a user variable *)
+| FShareTable (d t e : string)    (* child of d shares table t, which effect e rewrites in place:
+                                     modifying one object changes the other *)
 | FStructure (what : string).     (* ranks / names / nested calls not well formed *)
 
 Definition dups (l : list string) : list string :=
@@ -179,7 +183,13 @@ Definition failures (cfg : config) : list failure :=
   concat (map (fun dc => if forallb derived_pat (dv_parent_writes dc) then [] else [FProtected (dv_name dc)])
               (derivs cfg)) ++
   concat (map (fun ec => if forallb derived_pat (e_writes ec) then [] else [FProtected (e_name ec)])
-              (filter e_is_writer (effects cfg))).
+              (filter e_is_writer (effects cfg))) ++
+  (* an effect acts on one object only: no derivation shares a table that an effect rewrites *)
+  concat (map (fun dc =>
+    concat (map (fun t =>
+      concat (map (fun ec =>
+        if pats_overlap [(t, None)] (e_writes ec) then [FShareTable (dv_name dc) t (e_name ec)] else [])
+        (effects cfg))) (dv_shared_tables dc))) (derivs cfg)).
 
 Definition cfg_ok (cfg : config) : bool :=
   match failures cfg with [] => true | _ => false end.
@@ -421,7 +431,8 @@ Definition no_memo (cfg : config) : config :=
   mkcfg (map (fun qc => mkq (q_name qc) (q_rank qc) None None (q_relevant qc) (q_reads qc)
                             (q_writes qc) (q_deps qc)) (queries cfg))
         (effects cfg)
-        (map (fun dc => mkd (dv_name dc) (dv_pre dc) false (dv_parent_writes dc)) (derivs cfg)).
+        (map (fun dc => mkd (dv_name dc) (dv_pre dc) false (dv_parent_writes dc) (dv_shared_tables dc))
+             (derivs cfg)).
 
 Fixpoint olist_t_eqb (a b : list nat) : bool :=
   match a, b with
@@ -453,6 +464,7 @@ Definition witness (cfg : config) (f : failure) : list op :=
                 ++ map (fun q => Query 1 q []) (slot_queries cfg)
   | FWriteRead w q => [New 0; Query 0 q []; Query 0 w []; Derive 0 1 w; Query 0 q []]
   | FProtected w => []
+  | FShareTable d t e => [New 0; Derive 0 1 d; Effect 0 e]
   | FStructure _ => []
   end.
 Definition confirmed (cfg : config) : list (failure * bool) :=
